@@ -59,11 +59,13 @@ def check_events(sysdef, res, grid=None):
     def same(a, b):
         return a is not None and b is not None and np.allclose(a, b, atol=1e-12, rtol=0)
 
-    def check_frozen(where):
-        for m, snap in accepted.items():
-            for k, p in snap.items():
-                if not same(pos.get((m, k)), p):
-                    bad("C17", "accepted-molecules-never-move", f"{where}: residue {(m, k)} of accepted molecule moved {p} -> {pos.get((m, k))}")
+    def check_frozen(where, m=None, keys=()):
+        # positions only change through add / remove events, so it suffices to look at the molecule an event touches
+        if m in accepted:
+            for k in keys:
+                if not same(pos.get((m, k)), accepted[m].get(k)):
+                    bad("C17", "accepted-molecules-never-move",
+                        f"{where}: residue {(m, k)} of accepted molecule changed {accepted[m].get(k)} -> {pos.get((m, k))}")
 
     for e in ev:
         kind = e[0]
@@ -98,7 +100,6 @@ def check_events(sysdef, res, grid=None):
                     ["retry-with-supplied-residues"] if any(mm == m for mm, _ in supplied) else [])
             if (m, cur) in pos:
                 bad("C17", "residue-placed-once", f"molecule {m}: step for residue {cur}, which already has a position")
-            check_frozen("step")
         elif kind == "path":
             m, path, build = e[1], e[2], e[3]
             cur_attempt[m]["path"] = path
@@ -153,12 +154,12 @@ def check_events(sysdef, res, grid=None):
             if m in cur_attempt:
                 cur_attempt[m]["placed"].append(k)
             pending_step = None
-            check_frozen("add")
+            check_frozen("add", m, [k])
         elif kind == "remove":
             m, keys = e[1], e[2]
             for k in keys:
                 pos.pop((m, k), None)
-            check_frozen("remove")
+            check_frozen("remove", m, keys)
         elif kind == "attempt-result":
             m, ok = e[1], e[2]
             if ok:
